@@ -90,6 +90,40 @@ impl<'w> Ctx<'w> {
         Some((x, place, format!("decide (0 < {}.length)", cur), format!("{}.length - 1", cur)))
     }
 
+    /// the two iterator idioms of `MergerIter::next`:
+    /// `let a = LIST.iter().filter_map(|e| e.cursor.current().map(|(_, v)| v));` — the values the entries' cursors point at —
+    /// and `let b: Vec<_> = once(X).chain(a).map(Cow::Borrowed).collect();`
+    fn merger_values_let(&mut self, l: &syn::Local) -> Option<R<(String, String, Ty)>> {
+        let name = match &l.pat {
+            Pat::Ident(i) if i.subpat.is_none() => i.ident.to_string(),
+            Pat::Type(t) => match &*t.pat { Pat::Ident(i) => i.ident.to_string(), _ => return None },
+            _ => return None,
+        };
+        let init = l.init.as_ref()?;
+        let txt = init.expr.to_token_stream().to_string().replace(' ', "");
+        if let Some(recv) = txt.strip_suffix(".iter().filter_map(|e|e.cursor.current().map(|(_,v)|v))") {
+            let pe: Expr = syn::parse_str(recv).ok()?;
+            let pl = self.place_of(&pe)?;
+            match self.resolve(&pl.ty) { Ty::List(t) if matches!(&*t, Ty::Named(n) if self.w.ext_structs.contains(n)) => {}, _ => return None }
+            self.used_step = true;
+            let cur = self.place_read(&pl);
+            return Some(Ok((name, format!("← List.filterMapM (fun e => do let (_, r) := step e.cursor CurOp.current; pure ((← liftCur r).map (fun (_, v) => v))) {}", cur), Ty::List(Box::new(Ty::Bytes)))));
+        }
+        if let Some(rest) = txt.strip_prefix("once(") {
+            let inner = rest.strip_suffix(").map(Cow::Borrowed).collect()")?;
+            let (a, b) = inner.split_once(").chain(")?;
+            let (ae, be): (Expr, Expr) = (syn::parse_str(a).ok()?, syn::parse_str(b).ok()?);
+            let r = (|| -> R<(String, String, Ty)> {
+                let av = self.expr(&ae)?;
+                let bv = self.expr(&be)?;
+                if self.resolve(&av.ty) != Ty::Bytes || self.resolve(&bv.ty) != Ty::List(Box::new(Ty::Bytes)) || av.eff || bv.eff { return Err("once(..).chain(..) operand types".into()); }
+                Ok((name.clone(), format!(":= ([{}] ++ {})", av.s, bv.s), Ty::List(Box::new(Ty::Bytes))))
+            })();
+            return Some(r);
+        }
+        None
+    }
+
     fn opt_insert_let(&self, l: &syn::Local) -> Option<(String, Place, Expr)> {
         let name = match &l.pat { Pat::Ident(i) if i.mutability.is_none() && i.subpat.is_none() => i.ident.to_string(), _ => return None };
         let init = l.init.as_ref()?;
@@ -165,7 +199,7 @@ impl<'w> Ctx<'w> {
                 // -x-r1) are behaviour-preserving: leaving the subset keeps them on the correspondence tie
                 // instead of breaking a proof that could not be re-done automatically (DESIGN.md §3.5).
                 let ctrl_init = matches!(l.init.as_ref().map(|i| &*i.expr), Some(Expr::Match(_)) | Some(Expr::If(_)));
-                if ctrl_init && std::env::var("R2L_TUPLE_LET").is_err() {
+                if ctrl_init && std::env::var("R2L_TUPLE_LET").is_err() && !self.tuple_let {
                     return Err(format!("let pattern `{}`", l.pat.to_token_stream()));
                 }
                 let names: Vec<String> = match &l.pat {
@@ -221,6 +255,14 @@ impl<'w> Ctx<'w> {
                     let ln = self.bind(nm, ty.clone());
                     out.push(format!("{}let {} : {} := {}", ind(n), ln, lt, proj));
                 }
+                Ok(())
+            }
+            Stmt::Local(l) if self.merger_values_let(l).is_some() => {
+                let (name, line, ty) = self.merger_values_let(l).unwrap()?;
+                self.flush_pre(n, out);
+                let lt = self.w.lean_ty(&ty)?;
+                let ln = self.bind(&name, ty);
+                out.push(format!("{}let {} : {} {}", ind(n), ln, lt, line));
                 Ok(())
             }
             Stmt::Local(l) if self.opt_insert_let(l).is_some() => {
@@ -404,6 +446,63 @@ impl<'w> Ctx<'w> {
             }
             Expr::If(i) => self.if_stmt(i, n, tail, aliases, out),
             Expr::Match(m) => self.match_stmt(m, n, tail, aliases, out),
+            Expr::ForLoop(f) if f.expr.to_token_stream().to_string().replace(' ', "").starts_with("once(") => {
+                // for mut x in once(A).chain(P.drain(..)) { .. }: the element A, then the elements of P, which is left empty
+                let txt = f.expr.to_token_stream().to_string().replace(' ', "");
+                let inner = txt.strip_prefix("once(").and_then(|r| r.strip_suffix(".drain(..))")).ok_or("for over once(..)")?;
+                let (a, ptxt) = inner.split_once(").chain(").ok_or("for over once(..) without chain")?;
+                let ae: Expr = syn::parse_str(a).map_err(|e| e.to_string())?;
+                let pe: Expr = syn::parse_str(ptxt).map_err(|e| e.to_string())?;
+                let av = self.expr(&ae)?;
+                let pl = self.place_of(&pe).ok_or("drain of a non-place")?;
+                let et = match self.resolve(&pl.ty) { Ty::List(t) => *t, o => return Err(format!("drain of {:?}", o)) };
+                if self.resolve(&av.ty) != et || av.eff { return Err("once(..).chain(..) element types".into()); }
+                let (x, is_mut) = match &*f.pat { Pat::Ident(i) => (i.ident.to_string(), i.mutability.is_some()), _ => return Err("for pattern".into()) };
+                self.flush_pre(n, out);
+                let items = self.fresh("items");
+                out.push(format!("{}let {} := ([{}] ++ {})", ind(n), items, av.s, self.place_read(&pl)));
+                out.push(format!("{}{}", ind(n), self.place_write(&pl, "[]")));
+                self.vars.push(BTreeMap::new());
+                let ln = self.bind(&x, et);
+                out.push(format!("{}for {} in {} do", ind(n), ln, items));
+                if is_mut { out.push(format!("{}let mut {} := {}", ind(n + 1), ln, ln)); self.local_muts.push(x.clone()); }
+                self.loop_fin.push(None);
+                let body = self.block(&f.body, n + 1, false, aliases);
+                self.loop_fin.pop();
+                self.vars.pop();
+                out.extend(body?);
+                Ok(())
+            }
+            Expr::ForLoop(f) if f.expr.to_token_stream().to_string().replace(' ', "").ends_with(".into_iter().enumerate()") => {
+                // for (i, mut x) in LIST.into_iter().enumerate() { .. }
+                let txt = f.expr.to_token_stream().to_string().replace(' ', "");
+                let ptxt = txt.strip_suffix(".into_iter().enumerate()").unwrap();
+                let pe: Expr = syn::parse_str(ptxt).map_err(|e| e.to_string())?;
+                let lv = self.expr(&pe)?;
+                let et = match self.resolve(&lv.ty) { Ty::List(t) => *t, o => return Err(format!("enumerate over {:?}", o)) };
+                if lv.eff { return Err("effectful enumerate source".into()); }
+                let (iname, xname, x_mut) = match &*f.pat {
+                    Pat::Tuple(t) if t.elems.len() == 2 => match (&t.elems[0], &t.elems[1]) {
+                        (Pat::Ident(a), Pat::Ident(b)) => (a.ident.to_string(), b.ident.to_string(), b.mutability.is_some()),
+                        _ => return Err("for pattern".into()),
+                    },
+                    _ => return Err("for pattern".into()),
+                };
+                self.flush_pre(n, out);
+                let items = self.fresh("items");
+                out.push(format!("{}let {} := {}", ind(n), items, lv.s));
+                self.vars.push(BTreeMap::new());
+                let il = self.bind(&iname, Ty::U(64));
+                let xl = self.bind(&xname, et);
+                out.push(format!("{}for ({}, {}) in {}.zipIdx do", ind(n), xl, il, items));
+                if x_mut { out.push(format!("{}let mut {} := {}", ind(n + 1), xl, xl)); self.local_muts.push(xname.clone()); }
+                self.loop_fin.push(None);
+                let body = self.block(&f.body, n + 1, false, aliases);
+                self.loop_fin.pop();
+                self.vars.pop();
+                out.extend(body?);
+                Ok(())
+            }
             Expr::ForLoop(f) if self.for_pairs(f).is_some() => {
                 // for (a, b) in LIST   with LIST a `&mut Vec<(A, B)>` place: a, b stand for the components of element i
                 let (place, a0, a1, comps) = self.for_pairs(f).unwrap();
@@ -646,6 +745,9 @@ impl<'w> Ctx<'w> {
                     (Ty::Opt(t), "Some") => (**t).clone(),
                     (Ty::Named(n), "Ok" | "Err") if n == "SearchRes" => Ty::U(64),
                     (Ty::Bound(t), "Included" | "Excluded") => (**t).clone(),
+                    (Ty::Named(n), "Ok") if n == "MergeRes" => Ty::Named("Cow".into()),
+                    (Ty::Named(n), "Err") if n == "MergeRes" => Ty::Unit,
+                    (Ty::Named(n), "Owned" | "Borrowed") if n == "Cow" => Ty::Bytes,
                     _ => return Err(format!("pattern {} against {:?}", name, ty)),
                 };
                 if let (Some((ptxt, true)), Pat::Ident(i)) = (place, &ts.elems[0]) {
@@ -658,6 +760,8 @@ impl<'w> Ctx<'w> {
                     "Err" => format!("Except.error {}", inner),
                     "Some" => format!("Option.some {}", inner),
                     "Included" => format!(".included {}", inner),
+                    "Owned" => format!(".owned {}", inner),
+                    "Borrowed" => format!(".borrowed {}", inner),
                     _ => format!(".excluded {}", inner),
                 })
             }
@@ -1204,7 +1308,7 @@ impl World {
         let mut ctx = Ctx {
             w: self, vars: vec![BTreeMap::new()], widths: Rc::new(RefCell::new(vec![])), ivar_parent: Rc::new(RefCell::new(vec![])),
             pre: vec![], ret_ty: Ty::Unit, muts: vec![], generics: generics.clone(), fuel: opts.get("fuel").cloned(),
-            self_ty: ty_name.map(|s| s.to_string()), fresh: 0, val_mode: vec![], mut_pat_binds: vec![], loop_fin: vec![], used_step: false, local_muts: vec![], used_decompress: false, used_wwrite: false, used_wflush: false, used_compress: false, pending_drops: vec![], elems: BTreeMap::new(), heads: BTreeMap::new(), views: BTreeMap::new(),
+            self_ty: ty_name.map(|s| s.to_string()), fresh: 0, val_mode: vec![], mut_pat_binds: vec![], loop_fin: vec![], used_step: false, local_muts: vec![], used_decompress: false, used_wwrite: false, used_wflush: false, used_compress: false, used_merge: false, tuple_let: opts.contains_key("tuplelet"), pending_drops: vec![], elems: BTreeMap::new(), heads: BTreeMap::new(), views: BTreeMap::new(),
         };
         let mut params: Vec<String> = vec![];
         let mut rebinds: Vec<String> = vec![];
@@ -1337,6 +1441,9 @@ impl World {
         }
         if used_decompress {
             text = text.replacen(&format!("def {} ", lean_name), &format!("def {} (decompress : CompressionType → List UInt8 → Option (List UInt8)) ", lean_name), 1);
+        }
+        if ctx.used_merge {
+            text = text.replacen(&format!("def {} ", lean_name), &format!("def {} (merge : List UInt8 → List (List UInt8) → Except Unit Cow) ", lean_name), 1);
         }
         let used_step = ctx.used_step;
         if used_step {
